@@ -7,6 +7,10 @@ The byte-level file structure is checked on the real output by the harness-owned
 -/
 import EzdxfVerif.Lemmas.DocWrite
 import EzdxfVerif.Lemmas.DocOwner
+import EzdxfVerif.Lemmas.DocLink
+import EzdxfVerif.Lemmas.DocHandles
+import EzdxfVerif.Lemmas.DocVersion
+import EzdxfVerif.Lemmas.DocNames
 
 namespace EzdxfVerif.Props.C04
 open EzdxfVerif.Doc
@@ -43,17 +47,129 @@ theorem written_file_sound (s : State) (ops : List Op) (h : DocInv s) (hb : BInv
   have hr := Doc.full_inv_reachable s ops h hb hok
   exact ⟨Doc.write_once _ hr.1 hr.2, Doc.write_no_dead _, Doc.write_lt_handseed _ hr.1⟩
 
+/-- "linked ⇒ listed" is preserved by every operation (Session 3): a live entity with an owner is listed in the
+    entity space of that owner, which exists -/
+theorem step_linkinv (s : State) (op : Op) (hi : DocInv s) (hl : LinkInv s) : LinkInv (step s op).1 :=
+  Doc.step_LinkInv s op hi hl
+
+/-- EXACTLY once (Session 3; `write_once` is the "at most once" half): after ANY history of API operations every live
+    entity that is linked (has an owner) is written, and no handle is written twice -/
+theorem written_exactly_once (s : State) (ops : List Op) (h : DocInv s) (hb : BInv s) (hl : LinkInv s)
+    (hok : HistOk s ops) :
+    let w := writeFile (run s ops)
+    (written w).Nodup ∧
+    ∀ x k, isAlive (run s ops) x = true → ownerOf (run s ops) x = some k → x ∈ written w := by
+  have hr := Doc.full_inv_reachable s ops h hb hok
+  have hlr := Doc.link_inv_reachable s ops h hl hok
+  exact ⟨Doc.write_once _ hr.1 hr.2, fun x k ha ho => Doc.linked_written _ hr.2 hlr x k ha ho⟩
+
+/-- GROUP members resolve (Session 3): after ANY history (group edits, moves of members to other layouts or into
+    blocks, unlink, destroy, explode, audit, save+reload ...) every member handle written into a GROUP object is the
+    handle of an entity that is written into the same file -/
+theorem written_groups_closed (s : State) (ops : List Op) (h : DocInv s) (hb : BInv s) (hl : LinkInv s)
+    (hok : HistOk s ops) :
+    ∀ g ∈ (writeFile (run s ops)).groups, ∀ m ∈ g.2, m ∈ written (writeFile (run s ops)) :=
+  Doc.groups_closed _ (Doc.full_inv_reachable s ops h hb hok).2 (Doc.link_inv_reachable s ops h hl hok)
+
+/-! ### version gates and required entries (Session 3; tables regenerated from the live registry on every run) -/
+
+open EzdxfVerif.DocVersion in
+/-- no entity/object type newer than the target version: whatever the document contains, every type that passes
+    `DXFEntity.export_dxf` has `MIN_DXF_VERSION_FOR_EXPORT ≤ v` (all 7 versions, any table) -/
+theorem version_gate (tab : List (String × Nat)) (v : Nat) (types : List String) :
+    ∀ t ∈ exportTypes tab v types, minVerOf tab t ≤ v := DocVersion.version_gate tab v types
+
+open EzdxfVerif.DocVersion in
+/-- with the table of the live registry: a type that is known independently to exist only since version `m`
+    (LWPOLYLINE, MTEXT, SPLINE, HATCH, ELLIPSE, IMAGE, MESH, ACAD_TABLE ... ) is never written for a version below `m` -/
+theorem no_newer_type (v : Nat) (types : List String) (t : String) (m : Nat)
+    (ht : t ∈ exportTypes Gen.entityMinVer v types) (hm : (t, m) ∈ Gen.independentMin) : m ≤ v :=
+  DocVersion.no_newer_type v types t m ht hm
+
+open EzdxfVerif.DocVersion in
+/-- exporting for a newer version never loses an entity type -/
+theorem gate_monotone (tab : List (String × Nat)) (v v' : Nat) (h : v ≤ v') (types : List String) :
+    (exportTypes tab v types).Sublist (exportTypes tab v' types) := DocVersion.gate_monotone tab v v' h types
+
+open EzdxfVerif.DocVersion in
+/-- no header variable outside its version range: every variable written is a known variable with
+    `mindxf ≤ v ≤ maxdxf` (any set of stored variables, all versions) -/
+theorem header_gate (tab : List HVar) (v : Nat) (vars : List String) :
+    ∀ n ∈ exportHeader tab v vars, ∃ d, hvarOf tab n = some d ∧ d.min ≤ v ∧ v ≤ d.max :=
+  DocVersion.header_gate tab v vars
+
+open EzdxfVerif.DocVersion in
+/-- the custom drawing properties (R2004+) are never written into R12 / R2000 files, with or without `$LASTSAVEDBY`
+    (live header table; the guard of the fall-back branch is extracted from the source of `HeaderSection.export_dxf`) -/
+theorem custom_props_gate (v : Nat) (vars : List String)
+    (h : customWritten Gen.headerVars Gen.customFallback v vars = true) : 2 ≤ v :=
+  DocVersion.custom_props_gate v vars h
+
+open EzdxfVerif.DocVersion in
+/-- required CLASS entries: above R12 every DXF type in use that has a class definition, every required class of the
+    version and every class registered before is in the written CLASSES section -/
+theorem classes_cover_entities (defs : List String) (req : Nat → List String) (co : List (String × List String))
+    (v : Nat) (hv : v ≠ 0) (cls inUse : List String) :
+    (∀ t ∈ inUse, defs.contains t = true → t ∈ exportClasses defs req co v cls inUse) ∧
+    (∀ n ∈ req v, defs.contains n = true → n ∈ exportClasses defs req co v cls inUse) ∧
+    (∀ c ∈ cls, c ∈ exportClasses defs req co v cls inUse) :=
+  DocVersion.classes_cover_entities defs req co v hv cls inUse
+
+open EzdxfVerif.DocVersion in
+/-- the gates are in the source where the model puts them, and the regenerated tables respect the independent facts -/
+theorem version_tables_ok :
+    (Gen.entityGatePresent && Gen.headerGatePresent && Gen.classesGatePresent) = true ∧
+    Gen.independentMin.all (fun p => decide (p.2 ≤ minVerOf Gen.entityMinVer p.1)) = true ∧
+    Gen.independentHdrMin.all (fun p => match hvarOf Gen.headerVars p.1 with
+      | some d => decide (p.2 ≤ d.min) | none => false) = true :=
+  ⟨DocVersion.gates_present, DocVersion.independent_min_respected, DocVersion.independent_hdr_respected⟩
+
+/-- required table entries present after save + reload, whatever the history removed before -/
+theorem required_entries_after_reload (s : State) (seed : Nat) (hseed : s.next ≤ seed) :
+    (∀ r ∈ requiredTabs, r ∈ (step s (.reload seed)).1.tabs) ∧
+    (∀ x ∈ s.tabs, x ∈ (step s (.reload seed)).1.tabs) ∧
+    [48] ∈ (step s (.reload seed)).1.layers := Doc.required_after_reload s seed hseed
+
+/-- required table entries present in EVERY reachable state (Session 3): linetypes ByBlock / ByLayer / Continuous, text
+    style and dimension style Standard, appids ACAD / HATCHBACKGROUNDCOLOR / EZDXF, when present at the start (new or
+    loaded document), survive every history none of whose operations is the removal of one of them -/
+theorem required_entries_kept (s : State) (ops : List Op) (h0 : ∀ r ∈ requiredTabs, r ∈ s.tabs)
+    (hops : ∀ op ∈ ops, ∀ r ∈ requiredTabs, KeepsEntry r op) : ∀ r ∈ requiredTabs, r ∈ (run s ops).tabs :=
+  Doc.required_entries_kept s ops h0 hops
+
 /-! ### non-vacuity -/
 
 def fresh : State :=
-  ⟨[], [(23, []), (27, [])], [(lower modelSpaceName, modelSpaceName, 23), (lower paperSpaceName, paperSpaceName, 27)],
-   [⟨modelKey, ofString "Model", 23, 0⟩, ⟨upper (ofString "Layout1"), ofString "Layout1", 27, 1⟩],
-   [[48], ofString "defpoints"], 47⟩
+  { ents := [], spaces := [(23, []), (27, [])],
+    blocks := [(lower modelSpaceName, modelSpaceName, 23), (lower paperSpaceName, paperSpaceName, 27)],
+    layouts := [⟨modelKey, ofString "Model", 23, 0⟩, ⟨upper (ofString "Layout1"), ofString "Layout1", 27, 1⟩],
+    layers := [[48], ofString "defpoints"], next := 47,
+    tabs := [(1, ofString "byblock"), (1, ofString "bylayer"), (1, ofString "continuous"), (2, ofString "standard"),
+             (3, ofString "standard"), (4, ofString "acad")] }
 
 example : DocInv fresh ∧ BInv fresh := by
   simp [DocInv, HInv, SInv, BInv, brs, hs, keys, allH, fresh]
 
+-- the state right after the first save+reload holds all required entries; a history that removes a user entry keeps them
+def loaded : State := (step fresh (.reload 47)).1
+#guard requiredTabs.all (fun r => loaded.tabs.contains r)
+#guard requiredTabs.all (fun r => (run loaded [.addEntry 2 (ofString "Mine") 48, .delEntry 2 (ofString "MINE"), .add 23 48 49]).tabs.contains r)
+example : ∀ r ∈ requiredTabs, KeepsEntry r (.delEntry 2 (ofString "MINE")) := by
+  intro r hr; simp only [KeepsEntry]; revert r; decide
+
+example : LinkInv fresh := by
+  intro h ha; simp [isAlive, findEnt, fresh] at ha
+
+-- a group whose member was moved to another layout is written empty; a group with a destroyed member without it
+#guard (writeFile (run fresh [.add 23 47 48, .add 23 48 49, .newGroup (ofString "G") 49 50, .setGroup (ofString "G") [47, 48],
+    .move 23 47 27])).groups == [(49, [])]
+#guard (writeFile (run fresh [.add 23 47 48, .add 23 48 49, .newGroup (ofString "G") 49 50, .setGroup (ofString "G") [47, 48],
+    .destroy 47])).groups == [(49, [48])]
+-- explode: the copy of the block content gets a fresh handle, the TEXT replacing the ATTRIB keeps the ATTRIB's handle
+#guard (writeFile (run fresh [.newBlock (ofString "B") 47 50, .add 47 50 51, .addL 23 (some (ofString "b")) 51 [52, 53] 54,
+    .explode 51 [(54, [])] 55])).entities == [54, 52]
+
 #guard (writeFile (run fresh [.add 23 47 48, .newBlock (ofString "B1") 48 51, .add 48 51 52, .add 27 52 53,
-    .destroy 47, .add 23 53 54])) == ⟨[(23, []), (27, []), (48, [51])], [53, 52], 54⟩
+    .destroy 47, .add 23 53 54])) == ⟨[(23, []), (27, []), (48, [51])], [53, 52], 54, []⟩
 
 end EzdxfVerif.Props.C04
